@@ -220,13 +220,28 @@ pub async fn replicator_cmd(rep: &mut Report, plans: &str) {
         rep.eval(1);
         let replies: std::collections::BTreeSet<&str> = beh["replies"].as_array().unwrap().iter().map(|r| r.as_str().unwrap()).collect();
         rep.class(format!("{:?}{}{}", replies, if e { " expire" } else { "" }, if c { " catchup" } else { "" }));
-        let r = tokio::spawn({
+        let mut r = tokio::spawn({
             let beh = beh.clone();
             let root = root.clone();
             let coord = coord.clone();
             async move { run_one(&beh, &root, &coord, key).await }
         })
         .await;
+        // an ask that was dropped where the specification has an answer can be the buffer's wall-clock expiry on an
+        // overloaded machine: the behaviour is run again, and reported only if it deviates every time
+        let mut attempts = 1;
+        while attempts < 3 && !e && matches!(&r, Ok(Err(msg)) if msg.contains("real dropped")) {
+            attempts += 1;
+            rep.add("timing_reruns", 1);
+            tokio::time::sleep(std::time::Duration::from_millis(500)).await;
+            r = tokio::spawn({
+                let beh = beh.clone();
+                let root = root.clone();
+                let coord = coord.clone();
+                async move { run_one(&beh, &root, &coord, key).await }
+            })
+            .await;
+        }
         match r {
             Ok(Ok(n)) => steps += n,
             Ok(Err(e)) => {
